@@ -247,6 +247,7 @@ def _glue_worker(seed):
 
 
 def main(argv):
+    t_start = time.time()
     jobs = [(pk, n, sig) for pk, n, m in ops.all_modules() if n != "isclose" for sig in m.dispatch_map]
     res = C.pool_map(shadow_worker, jobs)
     # the contract of spatial.mag instantiated in the deltaangle jobs is re-discharged here (self-contained check)
@@ -257,7 +258,7 @@ def main(argv):
     for p, oid, d in bad_:
         extra["obligations"].append(dict(id=oid, kind="value", status="refuted", by="expression identity / numeric replay on the real SymPy backend", t=0, counterexample=dict(detail=d)))
     extra["obligations"].append(dict(id="C08/sympy-backend/contracts-evaluated", kind="value", status="proved", by=f"{n_ - len(bad_)} table / glue / replay contracts on the real SymPy backend", t=0))
-    return enginea_prop.run("C08", [], "DESIGN 4/C08", extra_results=res + [extra, cauchy_schwarz_lemma()],
+    return enginea_prop.run("C08", [], "DESIGN 4/C08", extra_results=res + [extra, cauchy_schwarz_lemma()], t_start=t_start,
                             extra_assumptions=["SymPy's own elementary functions denote the same real functions as NumPy's (trusted)",
                                                "regular domain of the statement: every operand off the z axis, forward (t > 0) and timelike; tau-stored operands have tau > 0",
                                                "isclose becomes Eq in the symbolic backend and ignores tolerances: the three isclose modules are outside the 'same number' clause for positive tolerances",
